@@ -47,11 +47,52 @@ def churn(rng, sid, rounds, raw, cold=False):
             "_m": m, "_B": B, "_keys": nkeys}
 
 
+def churn_mixed(rng, sid, rounds, raw):
+    """entries of two sizes a < 0.4 T < 0.6 T < b with a + b > T: a table is sealed as soon as the next entry does not fit, so
+    tables are sealed far from full; when their entries are superseded later they hold garbage below the ratio (D44)"""
+    T = rng.choice([509, 1021])
+    a = int(T * rng.choice([0.30, 0.34, 0.36, 0.38]))
+    b = max(T - a + rng.randrange(1, 8), int(0.61 * T))
+    nkeys = rng.choice([2, 3, 4])
+    keys = list(range(1, nkeys + 1))
+    ops = []
+    ts = 1
+    for r in range(rounds):
+        for _ in range(rng.choice([2, 3, 4])):
+            h = rng.choice(keys)
+            if rng.random() < 0.12:
+                ops.append(["del", "a", str(h)])
+                continue
+            m = rng.choice([a, b])
+            k = bytes([97 + h % 3])
+            v = bytes([rng.randrange(256)]) * (m - META - 1)
+            ops.append(["putraw" if raw else "put", "a", str(h), k.hex(), v.hex(), 0, ts])
+            ts += 1
+        ops.append(["compactall", "a"])
+        ops.append(["stats", "a"])
+    ops += [["range", "a"], ["scanall", "a", 7, 0]]
+    return {"id": sid, "size": T, "fork": True, "expired": True, "eqsize": False, "ops": ops, "_mixed": True, "_keys": nkeys}
+
+
 def bound_pred(sc, obs):
     """after every compaction-to-completion: allocated <= T*(ceil(L/((1-rho)T - m)) + ceil(B/(T-m)) + 2)"""
     T = sc["size"]
     m = sc.get("_m")
     B = sc.get("_B")
+    if sc.get("_mixed"):
+        # after every compaction-to-completion (idle recycled tables freed): every table but the written one that holds
+        # garbage holds a live entry too, so there are at most live + 2 tables
+        prev = None
+        for i, (op, ob) in enumerate(zip(sc["ops"], obs)):
+            if op[0] == "compactall":
+                prev = ob
+            if op[0] == "stats" and prev is not None and ob[0] == "stats":
+                alloc, inuse, garb, ln, tables = ob[1:6]
+                if alloc > T * (ln + 2):
+                    return (i, "allocated %d bytes in %d tables for %d live entries (%d bytes; table %d) after compaction: "
+                               "tables without a live entry are kept" % (alloc, tables, ln, inuse, T))
+                prev = None
+        return None
     if not m:
         return None
     prev = None
@@ -81,7 +122,11 @@ def scenarios(res):
         rng = vlib.rng_for(res.seed, PID, i)
         scs.append(churn(rng, sid, rounds, raw=(i % 2 == 1), cold=(i % 4 >= 2)))
         sid += 1
-    return scs, ncorpus, 0, n
+    for i in range(n // 4):
+        rng = vlib.rng_for(res.seed, PID, "mixed", i)
+        scs.append(churn_mixed(rng, sid, 2 * rounds, raw=(i % 2 == 1)))
+        sid += 1
+    return scs, ncorpus, 0, n + n // 4
 
 
 def nontrivial(sc, obs):
@@ -94,9 +139,10 @@ def run(res):
             rule="corpus + seeded churn workloads on one store: rounds of overwrite/delete over a fixed key set with equal-sized "
                  "entries (Put on even cases = primary, PutRaw on odd cases = backup/merge path; half of the cases start with cold keys "
                  "that fill whole tables and are never touched again), Compaction() to completion once "
-                 "per B=2T bytes written, Stats after each; predicate = reference map + accounting + the closed-form bound on "
+                 "per B=2T bytes written, Stats after each; plus churn with entries of two sizes (below 40% and above 60% of a table, so that "
+                 "tables are sealed far from full); predicate = reference map + accounting + the closed-form bound on "
                  "allocated after every compaction; non-trivial = >= 5 rounds in which compaction drained a table")
 
 
 def replay(res, path):
-    return c11.replay(res, path)
+    return c11.replay(res, path, extra_pred=bound_pred)
